@@ -19,6 +19,13 @@ pub fn dispatch(kind: &str, case: &Value) -> Result<Option<String>, String> {
         "c03_masking" => c03_masking(case),
         "adss_scenario" => adss_scenario(case),
         "c08_decode" => c08_decode(case),
+        "ggm_history" => ggm_history(case),
+        "c08_store" => c08_store(case),
+        "star_e2e" => star_e2e(case),
+        "adss_coeffs" => adss_coeffs(case),
+        "gen_script" => gen_script(case),
+        "c09_foreign" => c09_foreign(case),
+        "dealer_draws" => dealer_draws(case),
         _ => Err(format!("unknown case kind {:?}", kind)),
     }
 }
@@ -253,8 +260,13 @@ fn recover_case(case: &Value) -> Result<Option<String>, String> {
 // C04 / C03 / C05 / C16 / C08: scenario replays on the real crates (real Keccak, real RNG)
 // ---------------------------------------------------------------------------
 fn local_rnd(m: &[u8], e: &[u8], t: u32) -> [u8; 32] {
+    local_rnd_init(m, e, t, &[])
+}
+/// the output buffer holds `init` (zero-padded) before the call
+fn local_rnd_init(m: &[u8], e: &[u8], t: u32, init: &[u8]) -> [u8; 32] {
     let mg = sta_rs::MessageGenerator::new(sta_rs::SingleMeasurement::new(m), t, e);
     let mut r = [0u8; 32];
+    for (i, b) in init.iter().take(32).enumerate() { r[i] = *b; }
     mg.sample_local_randomness(&mut r);
     r
 }
@@ -267,10 +279,12 @@ pub fn c04_triples(case: &Value) -> Result<Option<String>, String> {
     let (m1, e1, t1) = (get_hex(case, "m1"), get_hex(case, "e1"), u32_of(case, "t1"));
     let (m2, e2, t2) = (get_hex(case, "m2"), get_hex(case, "e2"), u32_of(case, "t2"));
     let same = m1 == m2 && e1 == e2 && t1 == t2;
+    let c2 = case.clone();
     let r = catch(move || {
         let mut bad: Vec<String> = Vec::new();
-        let r1 = local_rnd(&m1, &e1, t1);
-        let r2 = local_rnd(&m2, &e2, t2);
+        let (i1, i2) = (if c2["init1"].is_string() { get_hex(&c2, "init1") } else { vec![] }, if c2["init2"].is_string() { get_hex(&c2, "init2") } else { vec![] });
+        let r1 = local_rnd_init(&m1, &e1, t1, &i1);
+        let r2 = local_rnd_init(&m2, &e2, t2, &i2);
         if (r1 == r2) != same { bad.push(format!("randomness equal={} but triples equal={}", r1 == r2, same)); }
         if t1 >= 1 && t2 >= 1 && t1 <= 8 && t2 <= 8 {
             let a = sta_rs::MessageGenerator::new(sta_rs::SingleMeasurement::new(&m1), t1, &e1).share_with_local_randomness();
@@ -389,8 +403,9 @@ pub fn adss_scenario(case: &Value) -> Result<Option<String>, String> {
             let nb = get_hex(&c2, "fault_bytes");
             let mut e = shares[0].to_bytes();
             let mut changed = false;
+            let flip = c2["flip"].as_bool().unwrap_or(false);
             for i in lo as usize..hi.min(e.len()) {
-                let v = nb.get(i - lo as usize).cloned().unwrap_or(0);
+                let v = if flip { e[i] ^ 1 } else { nb.get(i - lo as usize).cloned().unwrap_or(0) };
                 if v != e[i] { changed = true; }
                 e[i] = v;
             }
@@ -447,4 +462,466 @@ pub fn c08_decode(case: &Value) -> Result<Option<String>, String> {
             Ok(None)
         }
     }
+}
+
+// ---------------------------------------------------------------------------
+// C10 / C11 / C14: puncturable PRF histories on the real GGM / Server
+// ---------------------------------------------------------------------------
+use ppoprf::PPRF;
+
+/// bits (Lsb0) of the retained prefixes of a server's exported key state, via its serde form
+fn retained_prefixes(server: &ppoprf::ppoprf::Server) -> Result<Vec<Vec<bool>>, String> {
+    let v = serde_json::to_value(server.get_private_key()).map_err(|e| e.to_string())?;
+    let mut out = Vec::new();
+    for e in v["ggm_key"]["prefixes"].as_array().ok_or("prefixes")? {
+        let bv = &e[0]["bits"];
+        let nbits = bv["bits"].as_u64().ok_or("bits")? as usize;
+        let head = bv["head"]["index"].as_u64().unwrap_or(0) as usize;
+        let data = bv["data"].as_array().ok_or("data")?;
+        let mut bits = Vec::new();
+        for i in 0..nbits {
+            let pos = head + i;
+            let w = data[pos / 64].as_u64().unwrap_or(0);
+            bits.push((w >> (pos % 64)) & 1 == 1);
+        }
+        out.push(bits);
+    }
+    Ok(out)
+}
+
+pub fn ggm_history(case: &Value) -> Result<Option<String>, String> {
+    let ps: Vec<u8> = case["punctures"].as_array().ok_or("punctures")?.iter().map(|x| x.as_u64().unwrap_or(0) as u8).collect();
+    let y = case["probe"].as_u64().unwrap_or(0) as u8;
+    let r = catch(move || -> Result<Option<String>, String> {
+        let mut g = ppoprf::ggm::GGM::setup();
+        let mut before = [0u8; 32];
+        if g.eval(&[y], &mut before).is_err() { return Ok(Some("a fresh key does not evaluate the probe".into())); }
+        // distinct inputs, distinct values (on a fresh key)
+        let mut other = [0u8; 32];
+        let y2 = y.wrapping_add(1);
+        g.eval(&[y2], &mut other).map_err(|e| e.to_string())?;
+        if other == before { return Ok(Some("two distinct inputs have the same value".into())); }
+        let mut done: Vec<u8> = Vec::new();
+        for &p in &ps {
+            let r = g.puncture(&[p]);
+            if r.is_ok() == done.contains(&p) {
+                return Ok(Some(format!("puncture({}) returned {:?} although the input was {} punctured before", p, r.is_ok(), if done.contains(&p) { "already" } else { "not" })));
+            }
+            if !done.contains(&p) { done.push(p); }
+            // wrong lengths are refused
+            if g.eval(&[], &mut other).is_ok() || g.puncture(&[p, p]).is_ok() { return Ok(Some("wrong-length input accepted".into())); }
+        }
+        let mut after = [0u8; 32];
+        let r = g.eval(&[y], &mut after);
+        if done.contains(&y) {
+            if r.is_ok() { return Ok(Some(format!("punctured input {} still evaluates", y))); }
+        } else {
+            if r.is_err() { return Ok(Some(format!("unpunctured input {} no longer evaluates after puncturing {:?}", y, done))); }
+            if after != before { return Ok(Some(format!("input {} changed its value after puncturing {:?}", y, done))); }
+        }
+        // forward security, through the server's exported key state
+        let tags: Vec<u8> = vec![0, 1, 2, 255];
+        let mut s = ppoprf::ppoprf::Server::new(tags.clone()).map_err(|e| e.to_string())?;
+        let mut pd: Vec<u8> = Vec::new();
+        for &p in &ps { if s.puncture(p).is_ok() && !pd.contains(&p) { pd.push(p); } }
+        let pre = retained_prefixes(&s)?;
+        for p in &pd {
+            for b in &pre {
+                if (0..b.len()).all(|i| ((p >> i) & 1 == 1) == b[i]) {
+                    return Ok(Some(format!("exported key state retains the node {:?} on the path to punctured tag {}", b, p)));
+                }
+            }
+        }
+        for v in 0..=255u8 {
+            let cover = pre.iter().filter(|b| (0..b.len()).all(|i| ((v >> i) & 1 == 1) == b[i])).count();
+            if pd.contains(&v) && cover != 0 { return Ok(Some(format!("punctured tag {} still covered", v))); }
+            if !pd.contains(&v) && cover != 1 { return Ok(Some(format!("unpunctured tag {} covered by {} retained nodes", v, cover))); }
+        }
+        Ok(None)
+    });
+    match r {
+        Err(p) => Ok(Some(format!("panicked: {}", p))),
+        Ok(x) => x,
+    }
+}
+
+/// chunk helpers: store_bytes writes len(4 LE) | data and load_bytes inverts it; for an
+/// arbitrary buffer load_bytes agrees with the little-endian reading of the header
+pub fn c08_store(case: &Value) -> Result<Option<String>, String> {
+    let data = get_hex(case, "data");
+    let buffer = if case["buffer"].is_string() { Some(get_hex(case, "buffer")) } else { None };
+    let r = catch(move || -> Option<String> {
+        let mut out = Vec::new();
+        adss::store_bytes(&data, &mut out);
+        if out.len() != 4 + data.len() || out[..4] != (data.len() as u32).to_le_bytes() || out[4..] != data[..] {
+            return Some("store_bytes does not write len(4 LE) | data".into());
+        }
+        if adss::load_bytes(&out) != Some(&data[..]) {
+            return Some(format!("load_bytes(store_bytes(x)) != x for a chunk of {} bytes", data.len()));
+        }
+        if let Some(b) = buffer {
+            let want: Option<&[u8]> = if b.len() < 4 { None } else {
+                let n = u32::from_le_bytes([b[0], b[1], b[2], b[3]]) as usize;
+                if b.len() - 4 < n { None } else { Some(&b[4..4 + n]) }
+            };
+            if adss::load_bytes(&b) != want {
+                return Some(format!("load_bytes disagrees with the little-endian length header on a buffer of {} bytes (header {:?})", b.len(), &b[..4.min(b.len())]));
+            }
+        }
+        None
+    });
+    match r {
+        Err(p) => Ok(Some(format!("panicked: {}", p))),
+        Ok(x) => Ok(x),
+    }
+}
+
+// ---------------------------------------------------------------------------
+// C01: end-to-end scenario on the real crates (concrete cross-check)
+// ---------------------------------------------------------------------------
+/// n clients report measurement m under (epoch, t) with per-client associated data
+/// (null = none); every report goes through to_bytes/from_bytes; `selection` lists client
+/// indices (repeats allowed) handed to share_recover. Recovery must succeed iff the
+/// selection holds >= t distinct clients, and then every selected report must decrypt to
+/// exactly (m, aux or absence).
+pub fn star_e2e(case: &Value) -> Result<Option<String>, String> {
+    let (m, e, t) = (get_hex(case, "m"), get_hex(case, "e"), u32_of(case, "t"));
+    let auxs: Vec<Option<Vec<u8>>> = case["aux"].as_array().ok_or("aux")?.iter()
+        .map(|a| a.as_str().map(|_| crate::hex(a))).collect();
+    let sel: Vec<usize> = case["selection"].as_array().ok_or("selection")?.iter().map(|x| x.as_u64().unwrap_or(0) as usize).collect();
+    let r = catch(move || -> Result<Option<String>, String> {
+        let mg = sta_rs::MessageGenerator::new(sta_rs::SingleMeasurement::new(&m), t, &e);
+        let mut rnd = [0u8; 32];
+        mg.sample_local_randomness(&mut rnd);
+        let mut reports = Vec::new();
+        for a in &auxs {
+            let msg = sta_rs::Message::generate(&mg, &rnd, a.as_ref().map(|x| sta_rs::AssociatedData::new(x))).map_err(|e| e.to_string())?;
+            let wire = msg.to_bytes();
+            let back = match sta_rs::Message::from_bytes(&wire) {
+                Some(b) => b,
+                None => return Ok(Some(format!("an honest report of {} bytes does not decode", wire.len()))),
+            };
+            if back != msg { return Ok(Some("decode(encode(report)) != report".into())); }
+            reports.push(back);
+        }
+        let shares: Vec<sta_rs::Share> = sel.iter().map(|&i| reports[i].share.clone()).collect();
+        let mut distinct: Vec<usize> = sel.clone();
+        distinct.sort();
+        distinct.dedup();
+        let enough = distinct.len() >= t as usize && t >= 1;
+        match sta_rs::share_recover(&shares) {
+            Err(_) => {
+                if enough { return Ok(Some(format!("recovery failed although the selection {:?} holds {} distinct shares (t = {})", sel, distinct.len(), t))); }
+                Ok(None)
+            }
+            Ok(c) => {
+                if !enough { return Ok(Some(format!("recovery succeeded with {} distinct shares under t = {}", distinct.len(), t))); }
+                let mut key = vec![0u8; 16];
+                sta_rs::derive_ske_key(&c.get_message(), &e, &mut key);
+                for &i in &sel {
+                    let p = reports[i].ciphertext.decrypt(&key, "star_encrypt");
+                    let got_m = match sta_rs::load_bytes(&p) { Some(x) => x.to_vec(), None => return Ok(Some("payload does not parse".into())) };
+                    if got_m != m { return Ok(Some(format!("report {} decrypts to another measurement", i))); }
+                    let rest = &p[4 + got_m.len()..];
+                    let got_a = if rest.is_empty() { None } else { sta_rs::load_bytes(rest).map(|x| x.to_vec()) };
+                    if got_a != auxs[i] { return Ok(Some(format!("report {} decrypts to associated data {:?}, the client supplied {:?}", i, got_a, auxs[i]))); }
+                }
+                Ok(None)
+            }
+        }
+    });
+    match r {
+        Err(p) => Ok(Some(format!("panicked: {}", p))),
+        Ok(x) => x,
+    }
+}
+
+
+/// C02 / C16: threshold-2 sharings.  Independent invocations of one sharing lie on one line;
+/// the slope (the non-constant coefficient) is non-zero and differs between sharings of
+/// different (message, coins).
+pub fn adss_coeffs(case: &Value) -> Result<Option<String>, String> {
+    let (m, r, m2, r2) = (get_hex(case, "m"), get_hex(case, "r"), get_hex(case, "m2"), get_hex(case, "r2"));
+    let res = catch(move || -> Result<Option<String>, String> {
+        let mk = |m: &Vec<u8>, r: &Vec<u8>| -> Result<adss::Share, String> {
+            adss::Commune::new(2, m.clone(), r.clone(), None).share().map_err(|e| e.to_string())
+        };
+        let parts = |s: &adss::Share| -> Result<star_sharks::Share, String> {
+            // A(4) | len | sharks share | ...
+            let b = s.to_bytes();
+            let sb = adss::load_bytes(&b[4..]).ok_or("share bytes")?;
+            star_sharks::Share::try_from(sb).map_err(|e| e.to_string())
+        };
+        let slope = |a: &star_sharks::Share, b: &star_sharks::Share| -> Result<Vec<Fp>, String> {
+            let dx = b.x - a.x;
+            let inv = dx.invert();
+            if !bool::from(inv.is_some()) { return Err("equal points".into()); }
+            let inv = inv.unwrap();
+            Ok(a.y.iter().zip(b.y.iter()).map(|(ya, yb)| (*yb - *ya) * inv).collect())
+        };
+        let (a1, a2, a3) = (parts(&mk(&m, &r)?)?, parts(&mk(&m, &r)?)?, parts(&mk(&m, &r)?)?);
+        let s12 = slope(&a1, &a2)?;
+        let s13 = slope(&a1, &a3)?;
+        if s12 != s13 { return Ok(Some("three independent invocations of one sharing are not on one polynomial".into())); }
+        if s12.iter().any(|c| bool::from(c.is_zero())) { return Ok(Some("a non-constant coefficient is zero".into())); }
+        if m != m2 || r != r2 {
+            let (b1, b2) = (parts(&mk(&m2, &r2)?)?, parts(&mk(&m2, &r2)?)?);
+            let t12 = slope(&b1, &b2)?;
+            if t12.iter().zip(s12.iter()).any(|(a, b)| a == b) {
+                return Ok(Some("two sharings of different (message, coins) use the same polynomial coefficient".into()));
+            }
+        }
+        Ok(None)
+    });
+    match res {
+        Err(p) => Ok(Some(format!("panicked: {}", p))),
+        Ok(r) => r,
+    }
+}
+
+
+/// random source that replays a script of u64 words (then counts up), counting draws
+pub struct ScriptRng { pub words: Vec<u64>, pub pos: usize, pub draws: u64 }
+impl rand_core::RngCore for ScriptRng {
+    fn next_u32(&mut self) -> u32 { self.next_u64() as u32 }
+    fn next_u64(&mut self) -> u64 {
+        let v = if self.pos < self.words.len() { self.words[self.pos] } else { 1 + self.pos as u64 };
+        self.pos += 1;
+        self.draws += 1;
+        v
+    }
+    fn fill_bytes(&mut self, dest: &mut [u8]) { rand_core::impls::fill_bytes_via_next(self, dest) }
+    fn try_fill_bytes(&mut self, dest: &mut [u8]) -> Result<(), rand_core::Error> { self.fill_bytes(dest); Ok(()) }
+}
+
+/// C06: `Evaluator::gen` under a scripted random source (e.g. several zero candidates in a
+/// row): the share point is never zero and is the first non-zero accepted candidate
+pub fn gen_script(case: &Value) -> Result<Option<String>, String> {
+    let words: Vec<u64> = case["words"].as_array().ok_or("words")?.iter().map(|w| w.as_str().and_then(|s| s.parse::<u64>().ok()).or(w.as_u64()).unwrap_or(0)).collect();
+    let t = u32_of(case, "t").max(1);
+    let r = catch(move || -> Result<Option<String>, String> {
+        let mut secret = vec![0u8; 24];
+        secret[0] = 7;
+        let mut coin = ScriptRng { words: vec![], pos: 100, draws: 0 };
+        let ev = star_sharks::Sharks(t).dealer_rng(&secret, &mut coin).map_err(|e| e.to_string())?;
+        let mut rng = ScriptRng { words, pos: 0, draws: 0 };
+        let sh = ev.gen(&mut rng);
+        if bool::from(sh.x.is_zero()) {
+            return Ok(Some(format!("Evaluator::gen handed out the point 0 (the value is the secret itself) after {} source words", rng.draws)));
+        }
+        Ok(None)
+    });
+    match r { Err(p) => Ok(Some(format!("panicked: {}", p))), Ok(x) => x }
+}
+
+/// C02 / C06: dealing with threshold t draws t-1 coefficients (3 source words each, more on
+/// rejection) per secret element — the threshold is used at its full 32-bit width
+pub fn dealer_draws(case: &Value) -> Result<Option<String>, String> {
+    let t = case["t"].as_u64().ok_or("t")? as u32;
+    let nel = case["elements"].as_u64().unwrap_or(1) as usize;
+    let r = catch(move || -> Result<Option<String>, String> {
+        let mut secret = vec![0u8; 24 * nel];
+        secret[0] = 7;
+        let mut coin = ScriptRng { words: vec![], pos: 100, draws: 0 };
+        let ev = star_sharks::Sharks(t).dealer_rng(&secret, &mut coin).map_err(|e| e.to_string())?;
+        let want = 3u64 * (t.max(1) as u64 - 1) * nel as u64;
+        if coin.draws < want {
+            return Ok(Some(format!("dealing with threshold {} drew {} source words, a polynomial of degree t-1 per element needs at least {}", t, coin.draws, want)));
+        }
+        // two shares of a threshold >= 2 sharing must not both carry the secret itself
+        if t >= 2 {
+            let mut g = ScriptRng { words: vec![], pos: 1000, draws: 0 };
+            let a = ev.gen(&mut g);
+            let b = ev.gen(&mut g);
+            if a.y == b.y { return Ok(Some(format!("threshold {}: two shares at different points carry the same value (constant polynomial)", t))); }
+        }
+        Ok(None)
+    });
+    match r { Err(p) => Ok(Some(format!("panicked: {}", p))), Ok(x) => x }
+}
+
+
+// ---------------------------------------------------------------------------
+// C09 concrete cross-check: consumers of foreign data on structured malformed input
+// ---------------------------------------------------------------------------
+fn lcg(s: &mut u64) -> u64 {
+    *s = s.wrapping_mul(6364136223846793005).wrapping_add(1442695040888963407);
+    *s >> 33
+}
+fn rnd_bytes(s: &mut u64, n: usize) -> Vec<u8> {
+    (0..n).map(|_| lcg(s) as u8).collect()
+}
+/// mutations of a valid encoding: every truncation, one flipped byte at each of the first
+/// `span` positions, 0x00 / 0xff / +1 / -1 on every byte of the first `span`, appended junk
+fn mutations(valid: &[u8], span: usize) -> Vec<Vec<u8>> {
+    let mut out = Vec::new();
+    for n in 0..=valid.len() {
+        out.push(valid[..n].to_vec());
+    }
+    for i in 0..span.min(valid.len()) {
+        for v in [0u8, 0xff, valid[i].wrapping_add(1), valid[i].wrapping_sub(1), valid[i] ^ 0x80] {
+            let mut m = valid.to_vec();
+            m[i] = v;
+            out.push(m);
+        }
+    }
+    let mut m = valid.to_vec();
+    m.extend_from_slice(&[0xaa; 9]);
+    out.push(m);
+    out
+}
+
+/// one named consumer on one input; returns Some(panic message)
+fn foreign_one(f: &str, b: &[u8]) -> Option<String> {
+    use base64::Engine;
+    let b = b.to_vec();
+    let f2 = f.to_string();
+    let r = catch(move || {
+        match f2.as_str() {
+            "ppoprf::ServerPublicKey::load_from_bincode" => { let _ = ppoprf::ppoprf::ServerPublicKey::load_from_bincode(&b); }
+            "ppoprf::ProofDLEQ::load_from_bincode" => { let _ = ppoprf::ppoprf::ProofDLEQ::load_from_bincode(&b); }
+            "ppoprf::Point::json" => { let _ = serde_json::from_slice::<ppoprf::ppoprf::Point>(&b); }
+            "ppoprf::Evaluation::json" => { let _ = serde_json::from_slice::<ppoprf::ppoprf::Evaluation>(&b); }
+            "ppoprf::ServerKeyState::json" => { let _ = serde_json::from_slice::<ppoprf::ppoprf::ServerKeyState>(&b); }
+            "ppoprf::Point::bincode" => { let _ = bincode::deserialize::<ppoprf::ppoprf::Point>(&b); }
+            "star_wasm::group_shares" => { let _ = star_wasm::group_shares(&String::from_utf8_lossy(&b), "epoch"); }
+            "star_wasm::group_shares(b64)" => { let _ = star_wasm::group_shares(&base64::prelude::BASE64_STANDARD.encode(&b), "epoch"); }
+            "sta_rs::Message::from_bytes" => { let _ = sta_rs::Message::from_bytes(&b); }
+            "sta_rs::Share::from_bytes" => { let _ = sta_rs::Share::from_bytes(&b); let _ = adss::Share::from_bytes(&b); }
+            "sta_rs::share_recover" => {
+                if let Some(s) = sta_rs::Share::from_bytes(&b) { let _ = sta_rs::share_recover(&[s]); }
+            }
+            "sta_rs::share_recover(pair)" => {
+                // u32 length | share a | share b
+                if let Some(a) = adss::load_bytes(&b) {
+                    let rest = &b[4 + a.len()..];
+                    if let (Some(x), Some(y)) = (sta_rs::Share::from_bytes(a), sta_rs::Share::from_bytes(rest)) {
+                        let _ = sta_rs::share_recover(&[x.clone(), y.clone()]);
+                        let _ = sta_rs::share_recover(&[y, x.clone(), x]);
+                    }
+                }
+            }
+            "ppoprf::Server::eval+verify" => {
+                // b: 32 bytes blinded point | 32 bytes claimed output
+                if b.len() >= 64 {
+                    let srv = ppoprf::ppoprf::Server::new(vec![0u8, 1]).unwrap();
+                    let p: ppoprf::ppoprf::Point = serde_json::from_value(serde_json::json!(b[..32].to_vec())).unwrap_or_else(|_| ppoprf::ppoprf::Client::blind(b"x").0);
+                    let ev = srv.eval(&p, 0, true);
+                    let _ = srv.eval(&p, 7, false);
+                    let q: ppoprf::ppoprf::Point = serde_json::from_value(serde_json::json!(b[32..64].to_vec())).unwrap_or_else(|_| ppoprf::ppoprf::Client::blind(b"y").0);
+                    if let Ok(mut ev) = ev {
+                        let _ = ppoprf::ppoprf::Client::verify(&srv.get_public_key(), &q, &ev, 0);
+                        ev.output = q.clone();
+                        let _ = ppoprf::ppoprf::Client::verify(&srv.get_public_key(), &p, &ev, 0);
+                        ev.proof = None;
+                        let _ = ppoprf::ppoprf::Client::verify(&srv.get_public_key(), &p, &ev, 1);
+                    }
+                }
+            }
+            _ => panic!("unknown consumer {}", f2),
+        }
+    });
+    r.err()
+}
+
+pub fn c09_foreign(case: &Value) -> Result<Option<String>, String> {
+    use base64::Engine;
+    // single input replay
+    if let Some(f) = case["fn"].as_str() {
+        let b = get_hex(case, "bytes");
+        return Ok(foreign_one(f, &b).map(|m| format!("{} panicked on {} bytes ({}): {}", f, b.len(), crate::to_hex(&b[..b.len().min(48)]), m)));
+    }
+    let mut seed = case["seed"].as_u64().unwrap_or(1);
+    let mut inputs: Vec<(&str, Vec<u8>)> = Vec::new();
+    // valid encodings to mutate
+    let srv = ppoprf::ppoprf::Server::new(vec![0u8, 1, 200]).map_err(|e| format!("{:?}", e))?;
+    let pk = srv.get_public_key().serialize_to_bincode().map_err(|e| format!("{:?}", e))?;
+    let (bp, _r) = ppoprf::ppoprf::Client::blind(b"input");
+    let ev = srv.eval(&bp, 1, true).map_err(|e| format!("{:?}", e))?;
+    let proof = ev.proof.as_ref().ok_or("proof")?.serialize_to_bincode().map_err(|e| format!("{:?}", e))?;
+    let ev_json = serde_json::to_vec(&ev).map_err(|e| e.to_string())?;
+    let pt_json = serde_json::to_vec(&bp).map_err(|e| e.to_string())?;
+    let pt_bin = bincode::serialize(&bp).map_err(|e| e.to_string())?;
+    let ks_json = serde_json::to_vec(&srv.get_private_key()).map_err(|e| e.to_string())?;
+    for m in mutations(&pk, 60) { inputs.push(("ppoprf::ServerPublicKey::load_from_bincode", m)); }
+    for m in mutations(&proof, 64) { inputs.push(("ppoprf::ProofDLEQ::load_from_bincode", m)); }
+    for m in mutations(&pt_bin, 40) { inputs.push(("ppoprf::Point::bincode", m)); }
+    for m in mutations(&pt_json, 8) { inputs.push(("ppoprf::Point::json", m)); }
+    for m in mutations(&ev_json, 8) { inputs.push(("ppoprf::Evaluation::json", m)); }
+    for m in mutations(&ks_json[..ks_json.len().min(400)], 4) { inputs.push(("ppoprf::ServerKeyState::json", m)); }
+    // JSON values with byte arrays / base64 strings of every length 0..40 and 64
+    for n in (0..=40).chain([63usize, 64, 65]) {
+        let arr = serde_json::to_vec(&rnd_bytes(&mut seed, n)).unwrap();
+        inputs.push(("ppoprf::Point::json", arr.clone()));
+        let b64 = base64::prelude::BASE64_STANDARD.encode(rnd_bytes(&mut seed, n));
+        inputs.push(("ppoprf::Evaluation::json", format!("{{\"output\":\"{}\",\"proof\":null}}", b64).into_bytes()));
+        inputs.push(("ppoprf::Evaluation::json", format!("{{\"output\":\"{}\",\"proof\":{{\"c\":{},\"s\":{}}}}}", b64, String::from_utf8_lossy(&arr), String::from_utf8_lossy(&arr)).into_bytes()));
+        let mut bin = (n as u64).to_le_bytes().to_vec();
+        bin.extend(rnd_bytes(&mut seed, n));
+        inputs.push(("ppoprf::Point::bincode", bin.clone()));
+        inputs.push(("ppoprf::ProofDLEQ::load_from_bincode", bin.clone()));
+        inputs.push(("ppoprf::ServerPublicKey::load_from_bincode", bin));
+    }
+    for _ in 0..40 {
+        inputs.push(("ppoprf::Server::eval+verify", rnd_bytes(&mut seed, 64)));
+    }
+    // sta_rs encodings
+    let mg = sta_rs::MessageGenerator::new(sta_rs::SingleMeasurement::new(b"measurement"), 2, b"epoch");
+    let mut rnd = [0u8; 32];
+    mg.sample_local_randomness(&mut rnd);
+    let msg = sta_rs::Message::generate(&mg, &rnd, Some(sta_rs::AssociatedData::new(b"aux"))).map_err(|e| e.to_string())?;
+    let mb = msg.to_bytes();
+    let sb = msg.share.to_bytes();
+    for m in mutations(&mb, 48) { inputs.push(("sta_rs::Message::from_bytes", m)); }
+    for m in mutations(&sb, sb.len()) { inputs.push(("sta_rs::Share::from_bytes", m.clone())); inputs.push(("sta_rs::share_recover", m.clone())); inputs.push(("star_wasm::group_shares(b64)", m)); }
+    // pairs: an honest share next to one whose point / value field is 0, p-1, equal to the other's
+    let msg2 = sta_rs::Message::generate(&mg, &rnd, None).map_err(|e| e.to_string())?;
+    let sb2 = msg2.share.to_bytes();
+    if sb.len() >= 56 && sb2.len() == sb.len() {
+        let pm1: [u8; 24] = [0xa2, 0x30, 0, 0, 0, 0, 0, 0, 0, 0, 0, 0, 0, 0, 0, 0, 1, 0, 0, 0, 0, 0, 0, 0];
+        let mut variants: Vec<Vec<u8>> = Vec::new();
+        for (off, val) in [(8usize, [0u8; 24]), (8, pm1), (32, [0u8; 24]), (32, pm1)] {
+            let mut m = sb.clone();
+            m[off..off + 24].copy_from_slice(&val);
+            variants.push(m);
+        }
+        let mut m = sb.clone();
+        m[8..32].copy_from_slice(&sb2[8..32]);
+        variants.push(m);
+        for v in variants {
+            let mut pair = Vec::new();
+            sta_rs::store_bytes(&v, &mut pair);
+            pair.extend_from_slice(&sb2);
+            inputs.push(("sta_rs::share_recover(pair)", pair));
+            inputs.push(("sta_rs::share_recover", v));
+        }
+    }
+    // every length prefix of the share set to extreme values
+    for off in [4usize, 60, 60 + 4 + 32] {
+        for v in [[0u8, 0, 0, 0], [0xff, 0xff, 0xff, 0xff], [0xfc, 0xff, 0xff, 0xff], [0xff, 0xff, 0xff, 0x7f], [1, 0, 0, 0]] {
+            if off + 4 <= sb.len() {
+                let mut m = sb.clone();
+                m[off..off + 4].copy_from_slice(&v);
+                inputs.push(("sta_rs::Share::from_bytes", m.clone()));
+                inputs.push(("sta_rs::share_recover", m.clone()));
+                inputs.push(("star_wasm::group_shares(b64)", m));
+            }
+        }
+    }
+    // group_shares: raw text (junk, empty lines, several lines), base64 of random buffers of many sizes
+    for t in ["", "\n", "!!", "=", "====", "AAAA", "AAAA\nAAAA", "AA==\n\n", "\u{0}", "é", "AAA"] {
+        inputs.push(("star_wasm::group_shares", t.as_bytes().to_vec()));
+    }
+    for n in (0..=320).step_by(1) {
+        inputs.push(("star_wasm::group_shares(b64)", rnd_bytes(&mut seed, n)));
+    }
+    let two = format!("{}\n{}", base64::prelude::BASE64_STANDARD.encode(&sb), base64::prelude::BASE64_STANDARD.encode(&sb[..sb.len() - 1]));
+    inputs.push(("star_wasm::group_shares", two.into_bytes()));
+    let n = inputs.len();
+    for (f, b) in inputs {
+        if let Some(m) = foreign_one(f, &b) {
+            return Ok(Some(format!("{} panicked on a {}-byte input (1 of {} tried) hex={} : {}", f, b.len(), n, crate::to_hex(&b[..b.len().min(400)]), m)));
+        }
+    }
+    Ok(None)
 }
